@@ -165,6 +165,7 @@ def classify_generics_source(cx, fw, src):
         if d.assigns:
             return ('bad', '`%s` is reassigned' % d.name)
         # every mutation: make_where_clause() then pushes of bound predicates only
+        direct_pushes = []
         for ev in fw.events:
             if ev.kind == 'mcall':
                 r = strip_refs(ev.recv)
@@ -172,17 +173,21 @@ def classify_generics_source(cx, fw, src):
                     if ev.method not in ('make_where_clause', 'split_for_impl', 'clone'):
                         return ('bad', '`%s.%s(..)` modifies the generics copy' % (d.name, ev.method))
                 if r['k'] == 'Field' and es(r).startswith(d.name + '.'):
+                    # `<copy>.make_where_clause().predicates.push(p)`: the same push without the intermediate binding
+                    if es(r).replace(' ', '') == d.name + '.make_where_clause().predicates' and ev.method == 'push' and len(ev.args) == 1:
+                        direct_pushes.append(ev)
+                        continue
                     return ('bad', 'direct modification `%s`' % es(ev.node)[:60])
             if ev.kind == 'assign' and es(ev.target).startswith(d.name + '.'):
                 return ('bad', 'direct assignment to `%s`' % es(ev.target))
         # pushes into the where clause
         wdefs = [x for x in fw.defs if x.kind == 'let' and x.init is not None and es(x.init).replace(' ', '') == '%s.make_where_clause()' % d.name]
-        for wd in wdefs:
-            for ev in fw.events:
-                if ev.kind == 'mcall' and es(ev.recv).startswith(wd.name + '.') or (ev.kind == 'mcall' and es(ev.recv) == wd.name):
-                    if ev.scope.lookup(wd.name) is not wd:
+        for wd in wdefs + [None]:
+            for ev in (fw.events if wd is not None else direct_pushes):
+                if wd is None or (ev.kind == 'mcall' and es(ev.recv).startswith(wd.name + '.') or (ev.kind == 'mcall' and es(ev.recv) == wd.name)):
+                    if wd is not None and ev.scope.lookup(wd.name) is not wd:
                         continue
-                    if ev.method != 'push' or es(ev.recv) != wd.name + '.predicates':
+                    if wd is not None and (ev.method != 'push' or es(ev.recv) != wd.name + '.predicates'):
                         return ('bad', 'where-clause modified by `%s`' % es(ev.node)[:80])
                     vt = tm.term(ev.args[0], ev.scope)
                     # must be an element of the `bound` computed by Bound::into_where_predicates…
@@ -201,7 +206,7 @@ def classify_generics_source(cx, fw, src):
                     if outer:
                         return ('bad', 'the generics copy `%s` is created outside the loop `for %s in %s` in which predicates are pushed into it: predicates of earlier iterations leak into the impl headers of later ones'
                                 % (d.name, pat_s(outer[0]['pat']), es(outer[0]['iter'])[:50]))
-                if ev.kind == 'assign' and es(ev.target).startswith(wd.name):
+                if wd is not None and ev.kind == 'assign' and es(ev.target).startswith(wd.name):
                     return ('bad', 'where-clause reassigned')
         return ('clone', 'clone of the type\'s generics + predicates from Bound::%s only' % BOUND_FN)
     return ('bad', 'unrecognised Generics source %s' % term_s(src))
@@ -272,8 +277,8 @@ def check_bound_tables(cx, rep):
             W = 'WherePredicatesOrBool::'
             exp = [
                 ('WherePredicates', lambda ks: ks[-1:] == (W + 'WherePredicates',), ['Ok(Self::Custom(where_predicates))'], 'explicit predicates → Custom'),
-                ('Bool-true', lambda ks: ks[-2:] in ((W + 'Bool', 'if(bool)'), (W + 'Bool', '!if(!bool)')), ['Ok(Self::Auto)'], '`bound = true` → Auto'),
-                ('Bool-false', lambda ks: ks[-2:] in ((W + 'Bool', '!if(bool)'), (W + 'Bool', 'if(!bool)')), ['Ok(Self::Disabled)'], '`bound = false` → Disabled'),
+                ('Bool-true', lambda ks: ks[-2:] in ((W + 'Bool', 'if(bool)'), (W + 'Bool', '!if(!bool)')) or ks[-1:] == (W + 'Bool(true)',), ['Ok(Self::Auto)'], '`bound = true` → Auto'),
+                ('Bool-false', lambda ks: ks[-2:] in ((W + 'Bool', '!if(bool)'), (W + 'Bool', 'if(!bool)')) or ks[-1:] == (W + 'Bool(false)',), ['Ok(Self::Disabled)'], '`bound = false` → Disabled'),
                 ('All', lambda ks: ks[-1:] == (W + 'All',), ['Ok(Self::All)'], '`*` → All'),
             ]
             for name, kp, vals, why in exp:
